@@ -11,6 +11,12 @@ Theorem C16_sites_ok :
 Proof. vm_compute. reflexivity. Qed.
 Print Assumptions C16_sites_ok.
 
+(* the input side: the manual Deserialize impl of SecretKey reads as reviewed - the text is wrapped at once, so no error value (whose Display
+   and Debug a caller will print) can carry it *)
+Theorem C16_deserialize_reviewed : beq gen_secret_deserialize_body expected_deserialize_body = true.
+Proof. vm_compute. reflexivity. Qed.
+Print Assumptions C16_deserialize_reviewed.
+
 (* renderings of secret-bearing values do not depend on the secret (noninterference form), in Debug and in every serde
    format, human-readable or not *)
 Theorem C16_debug_redacts : forall ph ak sk1 sk2,
